@@ -148,6 +148,23 @@ def tool_inputs(c, count):
     return ins
 
 
+
+def coqchk_except_sweeps(c):
+    """thorough tier: coqchk over the closure of the property file, except Fold/Utf8Grammar.v whose
+    exhaustive vm_compute sweeps (1.1 million byte sequences) coqchk would re-evaluate without the VM
+    (> 15 min); that file is checked by coqc's kernel only, which the evidence states."""
+    mod = "PP.Props.Properties_%s" % c.prop
+    with Lock("coq"):
+        rc, out = run(["coqchk", "-silent", "-o", "-Q", "theories", "PP", "-admit", "PP.Fold.Utf8Grammar", mod], cwd=COQ, timeout=1500)
+    text = out.decode("utf-8", "replace")
+    ok = rc == 0 and "type-in-type: <none>" in text and "unsafe (co)fixpoints: <none>" in text
+    c.cov["coqchk"] = ("ok" if ok else "FAILED") + " (Utf8Grammar admitted): " + " ".join(text.split())[-300:]
+    c.cov["trusted_base"].append("coqchk -o over %s with -admit PP.Fold.Utf8Grammar (the Table 3-7 sweeps are checked by coqc + vm_compute only): %s" % (mod, "ok" if ok else "FAILED"))
+    if not ok:
+        c.broken.append("coqchk failed on %s: %s" % (mod, text[-400:]))
+    return ok
+
+
 def main(argv):
     c = Check("C07", argv)
     ok, blog = build_repo(["hx_wrap", "foldfilter"])
@@ -155,6 +172,8 @@ def main(argv):
         c.broken.append("build of the repo working tree failed: " + blog[-800:])
         return c.finish(rule="build failed")
     c.proofs()
+    if not (c.tier == "quick"):
+        coqchk_except_sweeps(c)
     drv, dlog = build_driver("C07")
     impl = hx_bin("hx_wrap")
     tool = repo_bin("foldfilter")
@@ -162,12 +181,10 @@ def main(argv):
 
     # ---------------- cases for wrap_lines
     cases = []
-    ex_lines = gen_exhaustive(c, 5 if quick else 7)
+    ex_lines = gen_exhaustive(c, 5 if quick else 6)
     for delims in ([32, 0xB7], [0xB7, 32]):
         for width in range(1, 7):
             for keep in (True, False):
-                if not quick and delims[0] != 32 and width > 3:
-                    continue
                 for line in ex_lines:
                     cases.append((width, keep, delims, line))
     n_ex = len(cases)
@@ -233,10 +250,52 @@ def main(argv):
                 c.violation("valid-line-rejected: wrap_lines(%r, w=%d) answered %s" % (line, width, o),
                             {"op": "wrap_lines", "line_hex": hx(line), "width": width, "keep": keep, "delims": delims, "impl": o, "how": how})
                 continue
+            # which branches of wrap_lines (= case splits of the proofs) this case went through
+            ps_, ds_ = r
+            feats = ["pieces=%s" % (len(ps_) if len(ps_) < 3 else "3+")]
+            if any(len(p) > width for p in ps_):
+                feats.append("single-code-point-wider-than-width")
+            if any(d for d in ds_):
+                feats.append("withheld-run")
+            if keep and any(p and cps(p) and cps(p)[-1] in delims for p in ps_[:-1]):
+                feats.append("kept-delimiters-at-piece-end(peek-extension)")
+            for a, b in zip(ps_, ps_[1:]):
+                cb = cps(b)
+                if a and cb and len(a) < width and len(chr(cb[0]).encode("utf-8")) > 1 and len(a) + len(chr(cb[0]).encode("utf-8")) > width:
+                    feats.append("cut-in-front-of-crossing-multibyte")
+                    break
+            if any(a and cps(a) and cps(a)[-1] not in delims and cps(b) and cps(b)[0] not in delims for a, b in zip(ps_, ps_[1:])):
+                feats.append("hard-cut-inside-word")
+            for f in feats:
+                key = "branch/" + f
+                c.cov["distribution"][key] = c.cov["distribution"].get(key, 0) + 1
             for kind, text in oracle(line, width, keep, delims, r[0], r[1]):
                 c.violation("%s: wrap_lines(%r, width=%d, keep=%s, delims=%r): %s" % (kind, line, width, keep, delims, text),
                             {"op": "wrap_lines", "kind": kind, "line_hex": hx(line), "line": line.decode("utf-8"), "width": width, "keep": keep,
                              "delims": delims, "pieces_hex": [hx(p) for p in r[0]], "withheld_hex": [hx(d) for d in r[1]], "how": how})
+
+    # ---------------- thorough: the same cases through the ASan+UBSan build of the harness
+    if not quick and impl_ok:
+        step = max(1, len(lines) // 150000)
+        asan_lines(c, "hx_wrap", lines[::step], what="(wrap_lines)")
+
+    # ---------------- the theorems' own boolean predicate (extracted check_wrap) on the implementation's pieces
+    if impl_ok and drv is not None:
+        idx = [i for i in range(n_valid) if out[1 + i].startswith("OK ")]
+        step = max(1, len(idx) // (40000 if quick else 400000))
+        idx = idx[::step]
+        clines = ["C %d %d %s %s %s" % (cases[i][0], 1 if cases[i][1] else 0, dl(cases[i][2]), hx(cases[i][3]), out[1 + i][3:]) for i in idx]
+        rc2, cout, e2 = run_lines(drv, clines)
+        if len(cout) != len(clines):
+            c.broken.append("model driver died on check_wrap cases: " + e2[-300:])
+        else:
+            c.cov["traces_validated_against_impl"] += len(clines)
+            for i, o in zip(idx, cout):
+                if o != "1":
+                    width, keep, delims, line = cases[i]
+                    c.violation("check_wrap: the extracted predicate of the C07 theorems rejects the pieces of wrap_lines(%r, width=%d, keep=%s, delims=%r): %s" % (line, width, keep, delims, out[1 + i]),
+                                {"op": "wrap_lines", "kind": "check_wrap", "line_hex": hx(line), "width": width, "keep": keep, "delims": delims, "impl": out[1 + i]})
+                    break
 
     # ---------------- tool level: bin/foldfilter with scripted children
     tcases = []
@@ -258,6 +317,7 @@ def main(argv):
             mout = None
     tdis = 0
     hangs = 0
+    fails = 0
     for i, (width, keep, delims, child, inp) in enumerate(tcases):
         argv = [tool, "-w", str(width)]
         if not keep:
@@ -265,9 +325,11 @@ def main(argv):
         if delims is not None:
             argv += ["-d", "".join(chr(x) for x in delims)]
         argv.append(os.path.join(CHILDREN, "child_%s.py" % child))
-        if hangs >= 3:
-            break
+        if hangs >= 3 or fails >= 12:
+            break                      # enough evidence; do not burn minutes on a tool that is clearly broken
         st, so, se = run_limited(argv, stdin=inp, timeout=10, mem_mb=2048)
+        if st != 0:
+            fails += 1
         c.count(("tool", width, keep, tuple(delims or ()), child, inp), nontrivial=len(inp) > 0, bucket="tool/" + child)
         rep = {"op": "tool", "argv": argv[1:-1] + ["child_%s.py" % child], "stdin_hex": hx(inp), "stdin": inp.decode("utf-8", "replace"),
                "status": st, "stdout_hex": hx(so), "stderr": se.decode("utf-8", "replace")[-300:]}
@@ -327,10 +389,178 @@ def main(argv):
     c.cov["traces_validated_against_impl"] += len(tcases)
     c.sample({"tool_case": tlines[3][:200]})
 
+    # ---------------- the stream-level model (one stream to the child, one back) vs the tool, incl. children
+    #     that break the line structure: one that swallows its 2nd line (the tool must fail) and one that adds
+    #     a line after the end of its input (foldfilter does not notice surplus output after the last line)
+    if drv is not None and hangs < 3 and fails < 12:
+        scases = [(w, k, d, ch, inp) for (w, k, d, ch, inp) in tcases[:60]]
+        for inp in (b"ab cd ef\nxyz\n", b"one\n", b"a b\n\nc d e\n", b""):
+            for ch in ("drop2", "extra"):
+                scases.append((3, False, [32], ch, inp))
+                scases.append((80, True, None, ch, inp))
+        sl = ["TS %d %d %s %s %s" % (w, 1 if k else 0, dl(d if d is not None else [58, 44, 32, 45, 46, 47]), ch, hx(inp)) for (w, k, d, ch, inp) in scases]
+        rc, sm, err = run_lines(drv, sl)
+        if len(sm) != len(sl):
+            c.broken.append("model driver died on stream cases: " + err[-200:])
+        else:
+            for (w, k, d, ch, inp), m, l in zip(scases, sm, sl):
+                argv = [tool, "-w", str(w)] + ([] if k else ["-s"]) + (["-d", "".join(chr(x) for x in d)] if d is not None else []) + [os.path.join(CHILDREN, "child_%s.py" % ch)]
+                st, so, se = run_limited(argv, stdin=inp, timeout=10, mem_mb=2048)
+                c.count(("stream", w, k, ch, inp), nontrivial=len(inp) > 0, bucket="tool-stream/" + ch)
+                agree = (m == "OK " + hx(so) and st == 0) or (m == "SHORT" and st not in (0, "timeout"))
+                if not agree:
+                    c.broken.append("correspondence foldfilter_stream model vs bin/foldfilter: case %r: model %s, tool status %s stdout %s" % (l[:160], m[:120], st, hx(so)[:120]))
+                    break
+                npieces_lines = len(inp.split(b"\n")) - 1
+                if ch == "drop2" and st == 0 and m == "SHORT":
+                    c.violation("line-structure-broken-unnoticed: child_drop2.py swallowed a line, foldfilter exit 0", {"op": "tool", "argv": argv[1:], "stdin": inp.decode("utf-8", "replace"), "status": st, "stdout_hex": hx(so)})
+            c.cov["traces_validated_against_impl"] += len(sl)
+
+    # ---------------- long streams: the feeder->collector queue (util::UnboundedSingleQueue) works in pages of
+    #     1023 entries; line counts around multiples of the page size, all at once and with stdin stalling
+    #     right after a long line at a page boundary (the collector then catches up with the feeder there)
+    def mklines(n):
+        ls = []
+        for i in range(1, n + 1):
+            if i % 1023 == 0:
+                ls.append(("long line %d:" % i + "".join(" word%d, more-text." % j for j in range(600))).encode())
+            elif i % 7 == 0:
+                ls.append(("line %d, with some more text: so that it gets folded - several times. over/and/over \u00e9\u20ac" % i).encode("utf-8"))
+            elif i % 11 == 0:
+                ls.append(b"")
+            else:
+                ls.append(b"line %d" % i)
+        return ls
+
+    stream_hangs = [hangs + (3 if fails >= 12 else 0)]      # a tool that already hung/crashed repeatedly is not fed 20 more long streams
+
+    def check_stream(tag, ls, st, so, se, how):
+        if st == "timeout":
+            stream_hangs[0] += 1
+        c.count((tag, len(ls)), nontrivial=True, bucket="long-stream/" + tag.split(":")[0])
+        rep = {"op": "tool", "lines": len(ls), "status": st, "stdout_lines": so.count(b"\n"), "stderr": se.decode("utf-8", "replace")[-300:], "how": how}
+        if st == "timeout":
+            c.violation("hang: foldfilter did not finish a stream of %d lines (%s)" % (len(ls), tag), rep)
+        elif st != 0:
+            c.violation("tool-failed: foldfilter exit status %s on a stream of %d valid lines (%s), %d lines came out" % (st, len(ls), tag, so.count(b"\n")), rep)
+        else:
+            ol = so.split(b"\n")
+            if so.endswith(b"\n") or so == b"":
+                ol.pop()
+            if len(ol) != len(ls):
+                c.violation("line-count: %d input lines, %d output lines (%s)" % (len(ls), len(ol), tag), rep)
+            elif ol != ls:
+                j = [k for k in range(len(ls)) if ls[k] != ol[k]][0]
+                c.violation("identity-child: line %d of %d (%s) %r came back as %r" % (j + 1, len(ls), tag, ls[j][:60], ol[j][:60]), dict(rep, line_index=j + 1))
+
+    idc = os.path.join(CHILDREN, "child_id.py")
+    for n in ((1022, 1023, 1024, 2046, 2047, 3500) if quick else (1021, 1022, 1023, 1024, 1025, 2045, 2046, 2047, 2048, 3069, 3500, 5200)):
+        if stream_hangs[0] >= 3:
+            break
+        ls = mklines(n)
+        mode = ["-s"] if n % 2 else []
+        st, so, se = run_limited([tool, "-w", "40"] + mode + [idc], stdin=b"".join(l + b"\n" for l in ls), timeout=60)
+        check_stream("at-once", ls, st, so, se, "%d lines (see mklines in checks/C07.py) | foldfilter -w 40 %s child_id.py" % (n, " ".join(mode)))
+    # one very long line (bigger than every stream buffer and pipe; thousands of pieces) between short ones
+    bigs = " ".join("w%d" % (i % 1000) + ("\u00e9" if i % 5 == 0 else "") for i in range(60000))
+    bigl = bigs.encode("utf-8")
+    ls = mklines(30) + [bigl, b"", bigs[: len(bigs) // 2].encode("utf-8")] + mklines(30)
+    for mode in ([], ["-s"]):
+        if stream_hangs[0] >= 3:
+            break
+        st, so, se = run_limited([tool, "-w", "40"] + mode + [idc], stdin=b"".join(l + b"\n" for l in ls), timeout=120)
+        check_stream("big-line" + (mode and ":-s" or ""), ls, st, so, se, "60 short lines around two lines of ~300 kB / 150 kB | foldfilter -w 40 %s child_id.py" % " ".join(mode))
+    for n, cuts in ((2500, (1023, 2046)), (1100, (1022,)), (2100, (1024, 2047))):
+        ls = mklines(n)
+        enc = [l + b"\n" for l in ls]
+        parts, prev = [], 0
+        for cpos in cuts:
+            parts.append(b"".join(enc[prev:cpos]))
+            prev = cpos
+        parts.append(b"".join(enc[prev:]))
+        for mode, child in (([], "cat"), (["-s"], idc)):
+            if stream_hangs[0] >= 3:
+                break
+            st, so, se = run_staged([tool, "-w", "40"] + mode + [child], parts, pause=1.2, timeout=60)
+            check_stream("stalled-stdin:%s%s" % (os.path.basename(child), mode and " -s" or ""), ls, st, so, se,
+                         "%d lines, stdin pauses 1.2 s after line(s) %s | foldfilter -w 40 %s %s" % (n, list(cuts), " ".join(mode), os.path.basename(child)))
+    c.cov["traces_validated_against_impl"] += 12
+
+    # ---------------- the width option: every decimal number a size_t holds is a width; anything else a usage error
+    wstrs = ["1", "7", "007", "80", "2147483647", "2147483648", "3000000000", "4294967295", "4294967296", "4294967297", "1000000000000",
+             "9223372036854775807", "9223372036854775808", "18446744073709551615", "18446744073709551616", "99999999999999999999999",
+             "-1", "-5", "abc", "5x", "", "+7", " 7", "0x10", "1e3"]
+    winp = b"ab cd, ef\n" + u8("\u00e9\u20ac \U0001F600") + b"\n\nlast"
+    wl = ["TW %s 1 %s id %s" % (hx(w.encode()), dl([58, 44, 32, 45, 46, 47]), hx(winp)) for w in wstrs]
+    wm = None
+    if drv is not None:
+        rc, wm, err = run_lines(drv, wl)
+        if len(wm) != len(wl):
+            c.broken.append("model driver died on width option cases: " + err[-200:])
+            wm = None
+    for i, w in enumerate(wstrs):
+        if stream_hangs[0] >= 3:
+            break
+        st, so, se = run_limited([tool, "-w", w, os.path.join(CHILDREN, "child_id.py")], stdin=winp, timeout=10, mem_mb=2048)
+        if st == "timeout":
+            stream_hangs[0] += 1
+        valid = w.isdigit() and w.isascii() and int(w) < 2 ** 64
+        c.count(("width-option", w), nontrivial=True, bucket="width-option/" + ("number" if valid else "not-a-number"))
+        rep = {"op": "tool", "argv": ["-w", w, "child_id.py"], "stdin": winp.decode("utf-8"), "status": st, "stdout_hex": hx(so),
+               "stderr": se.decode("utf-8", "replace")[-300:], "how": "printf '<stdin>' | foldfilter -w '%s' child_id.py" % w}
+        if valid and int(w) >= 1:
+            if st != 0 or so != winp + b"\n":
+                c.violation("width-option: -w %s is a valid width (>= every line length here) but foldfilter ended with status %s%s" % (
+                    w, st, "" if st != 0 else " and changed the text"), rep)
+        elif not valid:
+            if st == 0 or (isinstance(st, int) and st < 0) or st == "timeout" or st >= 128:
+                c.violation("width-option: -w %r is not a number a size_t holds; expected a usage error, got status %s%s" % (
+                    w, st, " (width silently replaced)" if st == 0 else ""), rep)
+        if wm is not None:
+            m = wm[i]
+            agree = (m == "USAGE" and st not in (0, "timeout") and isinstance(st, int) and 0 < st < 128) or (m == "OK " + hx(so) and st == 0)
+            if not agree:
+                c.broken.append("correspondence foldfilter_cli model vs bin/foldfilter -w %r: model %s, tool status %s stdout %s" % (w, m[:80], st, hx(so)[:80]))
+    c.cov["traces_validated_against_impl"] += len(wstrs)
+
+    # ---------------- the delimiter option: the code points of a valid UTF-8 string; anything else a usage error
+    dstrs = [b" ", b":, -./", b"", u8("\u00b7 "), u8("\u3001\u00e9\U0001F600"), b"\xff", b"\xc3", b"a\x80", b"\xed\xa0\x80", b"\xf4\x90\x80\x80", b" \xc2"]
+    dinp = u8("ab cd\u00b7ef\u3001gh, ij\n\U0001F600 x\n")
+    dlines = ["TD 33 %d %s bracket %s" % (i % 2, hx(d), hx(dinp)) for i, d in enumerate(dstrs)]
+    dm = None
+    if drv is not None:
+        rc, dm, err = run_lines(drv, dlines)
+        if len(dm) != len(dlines):
+            c.broken.append("model driver died on delimiter option cases: " + err[-200:])
+            dm = None
+    for i, d in enumerate(dstrs):
+        if stream_hangs[0] >= 3:
+            break
+        argv = [tool, "-w", "3"] + ([] if i % 2 else ["-s"]) + ["-d", d, os.path.join(CHILDREN, "child_bracket.py")]
+        st, so, se = run_limited(argv, stdin=dinp, timeout=10, mem_mb=2048)
+        try:
+            d.decode("utf-8", "strict")
+            valid = True
+        except UnicodeDecodeError:
+            valid = False
+        c.count(("delims-option", d), nontrivial=True, bucket="delims-option/" + ("valid" if valid else "not-utf8"))
+        rep = {"op": "tool", "argv": ["-w", "3", "-d", repr(d), "child_bracket.py"], "stdin": dinp.decode("utf-8"), "status": st, "stdout_hex": hx(so),
+               "stderr": se.decode("utf-8", "replace")[-300:]}
+        if valid and st != 0:
+            c.violation("delims-option: -d %r is valid UTF-8 but foldfilter ended with status %s" % (d, st), rep)
+        if not valid and (st == 0 or st == "timeout" or (isinstance(st, int) and (st < 0 or st >= 128))):
+            c.violation("delims-option: -d %r is not valid UTF-8; expected a usage error, got status %s" % (d, st), rep)
+        if dm is not None:
+            m = dm[i]
+            agree = (m == "USAGE" and isinstance(st, int) and 0 < st < 128) or (m == "OK " + hx(so) and st == 0)
+            if not agree:
+                c.broken.append("correspondence foldfilter_cli2 model vs bin/foldfilter -d %r: model %s, tool status %s stdout %s" % (d, m[:80], st, hx(so)[:80]))
+    c.cov["traces_validated_against_impl"] += len(dstrs)
+
     return c.finish(level="proof",
-                    rule="wrap_lines: every line over {a, e-acute, euro sign, U+1F600, space, middle dot} up to length %d x widths 1-6 x both -s modes x both delimiter preference orders; random lines of 1-4 byte code points (incl. CR, U+FFFD, U+10FFFF) with delimiter runs, widths around the line length, 7 delimiter lists incl. empty and multi-byte; malformed UTF-8 lines; tool level: bin/foldfilter x option sets x identity/bracketing/upper-casing children on multi-line inputs incl. empty lines, CR, no final newline. distinct = distinct non-empty inputs" % (5 if quick else 7),
+                    rule="wrap_lines: every line over {a, e-acute, euro sign, U+1F600, space, middle dot} up to length %d x widths 1-6 x both -s modes x both delimiter preference orders; random lines of 1-4 byte code points (incl. CR, U+FFFD, U+10FFFF) with delimiter runs, widths around the line length, 7 delimiter lists incl. empty and multi-byte; malformed UTF-8 lines; tool level: bin/foldfilter x option sets x identity/bracketing/upper-casing children on multi-line inputs incl. empty lines, CR, no final newline. distinct = distinct non-empty inputs" % (5 if quick else 6),
                     assumptions=["lines shorter than 2^31 bytes (pos_first_delimiter is an int32_t)",
-                                 "valid UTF-8 = accepted by util::DecodeUTF8 (C12 proves that this is Unicode Table 3-7)",
+                                 "valid UTF-8 = accepted by the model of util::DecodeUTF8; every Unicode Table 3-7 byte string is (theorem C07_table37_is_valid, exhaustive sweeps over the regenerated scanner constants)",
                                  "the child is line-preserving: one answer line (without LF) per piece; pipes and threads are C05/C16",
                                  "the reader delivers the records of stdin (C02)"])
 
